@@ -38,7 +38,7 @@ S = 2
 
 
 def bounds(tier):
-    return {"partA": ("period 1..3" if tier == "quick" else "period 1..5") + " (>=2 at gamma=1), N=2p+3 iterations, gamma symbolic in (0,1) or 1, clear on/off", "partB": "S3A2E2, bs 2, devices " + ("{1,2}" if tier == "quick" else "{1,2,3,4}"),
+    return {"partA": ("period 1..3" if tier == "quick" else "period 1..4 (5 at gamma=1)") + " (>=2 at gamma=1), N=2p+3 iterations, gamma symbolic in (0,1) or 1, clear on/off", "partB": "S3A2E2, bs 2, devices " + ("{1,2}" if tier == "quick" else "{1,2,3,4}"),
             "partC": "S2A2E1 / S3A2E1 all unichain deterministic structures, period 2, gamma 1"}
 
 
@@ -48,6 +48,8 @@ def jobs(tier, seed):
         for gm in ("sym", "one"):
             if gm == "one" and p < 2:
                 continue
+            if gm == "sym" and p >= 5:
+                continue   # gamma^(j-1) up to degree 10: a single job ran > 15 min, outside
             for clear in (False, True):
                 out.append(dict(name=f"A-p{p}-g{gm}-clear{int(clear)}", kind="A", period=p, gmode=gm, clear=clear, devices=1, seed=seed, cost=5 * p))
     for dv in ((1, 2) if tier == "quick" else (1, 2, 3, 4)):
